@@ -1074,6 +1074,196 @@ pub static C12: PropDef = PropDef {
     prop_labels: &[(L_X1, "object_forgotten_or_dropped_strictly_inside"), (L_X2, "capacity_boundary_op"), (L_X3, "try_reserve_error_or_huge_request")],
 };
 
+// ---------------------------------------------------------------------------------------------
+// C17 (enumerating runner in special.rs) and C18 (differential + primitives)
+
+fn never_strategy(_t: Tier) -> BoxedStrategy<Case> {
+    use proptest::prelude::*;
+    Just(Case::new("arith")).boxed()
+}
+
+pub static C17: PropDef = PropDef {
+    id: "C17",
+    rule: "enumeration through the verif-hooks wrappers on both group widths: capacity_to_buckets for cap = 2^k + d and \
+           7/8*2^k + d (|d| <= 4096 quick / 65536 thorough, k in 0..64), exhaustively for cap in 1..=2^21 (quick) / \
+           1..=2^32 (thorough), seeded random 64-bit capacities, x element sizes {0,1,2,3,4,8,16,200}; \
+           bucket_mask_to_capacity for all 64 masks; calculate_layout_for over sizes {0..=64, .., 2^62, isize::MAX/2 +- 1, \
+           random} x alignments 1..=4096 (sizes rounded to multiples of the alignment: layouts of real types) x 64 bucket \
+           counts; probe sequences of 2^k buckets (k <= 20 quick / 26 thorough) from every start (k <= 12) or boundary + \
+           sampled starts; TableLayout::new for 38 real types. Oracle: u128 arithmetic written from the statement. \
+           Non-trivial = input within 2 of a 2^k or 7/8*2^k boundary, a zero size, a bucket count >= 2^56 or a product \
+           >= 2^62, or a probe start in the first/last group",
+    level: "exploration",
+    cases_quick: 0,
+    cases_thorough: 0,
+    strategy: never_strategy,
+    eval: eval_plain,
+    nontrivial: c01_nontrivial,
+    specs: hbv::specs::MAP_OPS,
+    assumptions: &[
+        "exhaustive only in the ranges stated; above them capacities are sampled at boundaries and at random",
+        "reporting overflow is accepted wherever the statement accepts it; overflow reported for requests below 2^40 is attributed to C12",
+    ],
+    prop_labels: &[],
+};
+
+// Only operations whose effect is a function of the history, not of the capacity, bucket positions
+// or iteration order (those legitimately differ between the two group widths).
+static C18_MAP_WEIGHTS: &[(u16, u32)] = &[
+    (m::INSERT, 20),
+    (m::TRY_INSERT, 4),
+    (m::GET, 8),
+    (m::GET_MUT, 4),
+    (m::REMOVE, 14),
+    (m::ENTRY, 8),
+    (m::ENTRY_REF, 6),
+    (m::EXTEND, 3),
+    (m::REBUILD, 1),
+    (m::CLEAR, 1),
+    (m::RESERVE, 2),
+    (m::SHRINK_TO_FIT, 2),
+    (m::RETAIN, 3),
+    (m::FILL_EXACT, 8),
+    (m::REMOVE_ALL_BUT, 5),
+    (m::CHURN, 6),
+    (m::RESERVE_TO_BOUNDARY, 1),
+    (m::INSERT_UNIQUE_UNCHECKED, 2),
+    (m::REMOVE_NTH, 6),
+    (m::GET_ABSENT, 2),
+    (m::DRAIN, 1),
+    (m::RAW_ENTRY, 3),
+    (m::RUSTC_ENTRY, 3),
+    (m::GET_MANY_MUT, 2),
+    (m::CLONE_TO_OTHER, 1),
+    (m::CLONE_FROM_OTHER, 1),
+    (m::SWAP, 1),
+];
+static C18_TABLE_WEIGHTS: &[(u16, u32)] = &[
+    (t::INSERT_UNIQUE, 30),
+    (t::FIND, 6),
+    (t::FIND_MUT, 4),
+    (t::FIND_ENTRY, 14),
+    (t::ENTRY, 12),
+    (t::RETAIN, 3),
+    (t::DRAIN, 1),
+    (t::CLEAR, 1),
+    (t::RESERVE, 2),
+    (t::TRY_RESERVE, 1),
+    (t::SHRINK_TO_FIT, 2),
+    (t::GET_MANY_MUT, 3),
+    (t::ITER_HASH, 6),
+    (t::CLONE_SWAP, 1),
+    (t::REMOVE_ALL_BUT, 4),
+    (t::REMOVE_NTH, 8),
+];
+
+fn c18_strategy(tier: Tier) -> BoxedStrategy<Case> {
+    use proptest::prelude::*;
+    let n = if tier == Tier::Quick { 100 } else { 300 };
+    union2(
+        map_case_strategy(MapGen { prop: 18, weights: C18_MAP_WEIGHTS, max_ops: n, generic_pct: 0, plain_pct: 30 }),
+        3,
+        table_case_strategy(TableGen { prop: 18, weights: C18_TABLE_WEIGHTS, max_ops: n, generic_pct: 0, plain_pct: 30 }),
+        2,
+    )
+    .prop_map(|mut c| {
+        c.set("transcript", 1);
+        c.set("nodup", 1);
+        c
+    })
+    .boxed()
+}
+
+fn eval_c18(case: &Case) -> Outcome {
+    let mut a = case.clone();
+    a.set("backend", 0);
+    let mut b = case.clone();
+    b.set("backend", 1);
+    let oa = hbv::run_case(&a);
+    let ob = hbv::run_case(&b);
+    let mut total = Outcome::default();
+    total.labels = oa.labels | ob.labels;
+    total.steps = oa.steps + ob.steps;
+    if let Some(v) = oa.violation {
+        total.violation = Some(v);
+        total.repro = Some(a);
+        return total;
+    }
+    if let Some(v) = ob.violation {
+        total.violation = Some(v);
+        total.repro = Some(b);
+        return total;
+    }
+    if oa.transcript != ob.transcript {
+        let step = oa.transcript.iter().zip(ob.transcript.iter()).position(|(x, y)| x != y).unwrap_or(oa.transcript.len().min(ob.transcript.len()));
+        total.violation = Some(hbv::world::Violation {
+            property: "C18",
+            kind: "transcript-differs".into(),
+            step,
+            detail: format!("observable contents after step {step} differ between the SSE2 and the portable scanner ({} vs {} steps recorded)", oa.transcript.len(), ob.transcript.len()),
+        });
+        total.repro = Some(a);
+    }
+    total
+}
+
+fn c18_nontrivial(_c: &Case, o: &Outcome) -> bool {
+    o.labels & (L_TOMBSTONE | L_REHASH_IN_PLACE | L_LONG_PROBE | L_ITER_HASH_LONG) != 0
+}
+
+pub static C18: PropDef = PropDef {
+    id: "C18",
+    rule: "(a) every generated C01 (HashMap) and C06 (HashTable) case is executed on the SSE2 build and on the portable \
+           twin (same source compiled with cfg(miri)) in one process; both must satisfy the reference model at every step \
+           and their per-step digests of (len, sorted contents) must be identical; non-trivial = the case reached a \
+           tombstone, an in-place rehash or a probe longer than one group. (b) scanner primitives through the hooks on \
+           both back-ends: all 2^16 values of every adjacent byte pair at every position of 4 background groups with the \
+           tags that matter (all 128 thorough) plus seeded random groups; bytewise oracle, exact for SSE2, documented \
+           superset for the portable match_tag; BitMask queries in element units; non-trivial = group of valid control bytes",
+    level: "exploration",
+    cases_quick: 12_000,
+    cases_thorough: 200_000,
+    strategy: c18_strategy,
+    eval: eval_c18,
+    nontrivial: c18_nontrivial,
+    specs: hbv::specs::MAP_OPS,
+    assumptions: &[
+        "the portable back-end is the crate's own generic.rs selected by its own cfg(miri) switch in a twin package; NEON/LSX back-ends are not buildable here",
+        "capacity, allocation size and iteration order legitimately differ between widths and are excluded",
+    ],
+    prop_labels: &[],
+};
+
+// ---------------------------------------------------------------------------------------------
+// C20: serde
+
+fn c20_strategy(_tier: Tier) -> BoxedStrategy<Case> {
+    serde_case_strategy()
+}
+
+fn c20_nontrivial(_c: &Case, o: &Outcome) -> bool {
+    o.labels & (L_X1 | L_X2 | L_X3) != 0
+}
+
+pub static C20: PropDef = PropDef {
+    id: "C20",
+    rule: "maps / sets of tracked elements x entry streams with repeated keys x claimed size hints {none, len, 1, 4095, \
+           4096, 4097, 2^32, usize::MAX/2, usize::MAX} x an element deserialisation error at position e (keys and values \
+           both count) x mode {serialize -> serde_json -> deserialize, serde value deserializers over a lying iterator, \
+           deserialize_in_place into a pre-filled set}; oracle: round trip ==, last value wins, Err is returned, every \
+           built element dropped exactly once and no block left, bytes reserved before the first element is read <= block \
+           of with_capacity(4096). Non-trivial = duplicate keys, a claim above 4096, or an injected error inside the stream",
+    level: "exploration",
+    cases_quick: 16_000,
+    cases_thorough: 300_000,
+    strategy: c20_strategy,
+    eval: eval_plain,
+    nontrivial: c20_nontrivial,
+    specs: hbv::specs::SERDE_OPS,
+    assumptions: &["allocation is observed through the checking allocator used as `A: Default`", "formats: serde_json and serde's value deserializers (MapDeserializer / SeqDeserializer)"],
+    prop_labels: &[(L_X1, "duplicate_keys_in_stream"), (L_X2, "claimed_hint_above_4096"), (L_X3, "element_error_inside_stream")],
+};
+
 pub fn all() -> Vec<&'static PropDef> {
-    vec![&C01, &C02, &C03, &C04, &C05, &C06, &C07, &C08, &C09, &C10, &C11, &C12, &C13, &C14, &C15]
+    vec![&C01, &C02, &C03, &C04, &C05, &C06, &C07, &C08, &C09, &C10, &C11, &C12, &C13, &C14, &C15, &C17, &C18, &C20]
 }
